@@ -466,8 +466,24 @@ fn drain<R: Read + Send + 'static>(mut r: R) -> std::thread::JoinHandle<Vec<u8>>
 
 /// Run the scenario in a fresh scratch directory (removed afterwards).
 pub fn run(sc: &Scenario, timeout: Duration) -> Obs {
-    let scratch = Scratch::new();
-    run_in(&scratch, sc, timeout)
+    let obs = {
+        let scratch = Scratch::new();
+        run_in(&scratch, sc, timeout)
+    };
+    // A run that reaches the watchdog is repeated once in a fresh directory, and the second observation is the one
+    // that counts: a machine that stalls under other load must not be taken for a hang of the subject, a real hang
+    // repeats. After a few confirmed timeouts in this process the repetition is dropped (a change that makes every
+    // case hang would otherwise cost twice the watchdog per case).
+    static CONFIRMED: std::sync::atomic::AtomicU32 = std::sync::atomic::AtomicU32::new(0);
+    if obs.timed_out && CONFIRMED.load(std::sync::atomic::Ordering::Relaxed) < 3 {
+        let scratch = Scratch::new();
+        let again = run_in(&scratch, sc, timeout);
+        if again.timed_out {
+            CONFIRMED.fetch_add(1, std::sync::atomic::Ordering::Relaxed);
+        }
+        return again;
+    }
+    obs
 }
 
 /// Run the scenario in `scratch` (which must be fresh).
